@@ -25,7 +25,7 @@ theorem decSCFields_enc (sc : SpendCommitment) (h : WFSC sc) (r : Bytes) :
     (decSCFields (encSCFields sc ++ r)).out = .ok sc r := by
   unfold decSCFields encSCFields
   simp only [List.append_assoc]
-  rw [bind_ok (readHash_app _ _ h.src), bind_ok (readHash_app _ _ h.asset), bind_ok (tick_out _ _),
+  rw [bind_ok (readHash_app _ _ h.src), bind_ok (by rw [charge_out]; exact readHash_app _ _ h.asset),
     bind_ok (readVarint63_put _ h.amount _), bind_ok (readVarint63_put _ h.pos _),
     bind_ok (readVarint63_put _ (by rw [h.vm]; decide) _)]
   rw [if_neg (by simp [h.vm])]
@@ -62,6 +62,18 @@ def commitOf (H : Bytes → Bytes) : TypedInput → Commit
   | .coinbase arb => .coinbase arb
   | .veto sc suf vote _ => .veto sc (suf ++ suf) vote
 
+theorem readInType_cons (t : UInt8) (r : Bytes) (h : ¬ t > 3) : (chargeOk aTyped readInType (t :: r)).out = .ok t r := by
+  rw [chargeOk_out]
+  unfold readInType
+  rw [bind_ok (readByte_cons _ _), if_neg h]
+  rfl
+
+theorem readOutType_cons (t : UInt8) (r : Bytes) (h : ¬ (t ≠ 0 ∧ t ≠ 1)) : (chargeOk 32 readOutType (t :: r)).out = .ok t r := by
+  rw [chargeOk_out]
+  unfold readOutType
+  rw [bind_ok (readByte_cons _ _), if_neg h]
+  rfl
+
 theorem decCommit_enc (H : Bytes → Bytes) (hH : Hash32 H) (t : TypedInput) (h : WFTyped t) (r : Bytes) :
     (decCommit (encCommitment H t ++ r)).out = .ok (commitOf H t) r := by
   unfold decCommit
@@ -69,27 +81,27 @@ theorem decCommit_enc (H : Bytes → Bytes) (hH : Hash32 H) (t : TypedInput) (h 
   | issuance nonce amount assetDef vm prog args =>
     obtain ⟨h1, h2, h3, h4, h5, h6⟩ := h
     simp only [encCommitment, List.append_assoc, List.singleton_append, List.cons_append, List.nil_append]
-    rw [bind_ok (readByte_cons _ _), bind_ok (tick_out _ _)]
+    rw [bind_ok (readInType_cons _ _ (by decide))]
     rw [if_pos rfl]
     rw [bind_ok (readVarstr31_enc _ h1 _), bind_ok (readHash_app (issuanceAssetID H assetDef vm prog) _ (hH _)), bind_ok (readVarint63_put _ h2 _)]
     rfl
   | spend sc suf args =>
     obtain ⟨h1, h2, h3⟩ := h
     simp only [encCommitment, List.append_assoc, List.singleton_append, List.cons_append, List.nil_append]
-    rw [bind_ok (readByte_cons _ _), bind_ok (tick_out _ _)]
+    rw [bind_ok (readInType_cons _ _ (by decide))]
     rw [if_neg (by decide), if_pos rfl]
     rw [bind_ok (decSC_enc sc suf h1 h2 r)]
     rfl
   | coinbase arb =>
     simp only [encCommitment, List.append_assoc, List.singleton_append, List.cons_append, List.nil_append]
-    rw [bind_ok (readByte_cons _ _), bind_ok (tick_out _ _)]
+    rw [bind_ok (readInType_cons _ _ (by decide))]
     rw [if_neg (by decide), if_neg (by decide), if_pos rfl]
     rw [bind_ok (readVarstr31_enc _ h _)]
     rfl
   | veto sc suf vote args =>
     obtain ⟨h1, h2, h3, h4⟩ := h
     simp only [encCommitment, List.append_assoc, List.singleton_append, List.cons_append, List.nil_append]
-    rw [bind_ok (readByte_cons _ _), bind_ok (tick_out _ _)]
+    rw [bind_ok (readInType_cons _ _ (by decide))]
     rw [if_neg (by decide), if_neg (by decide), if_neg (by decide), if_pos rfl]
     rw [bind_ok (decSC_enc sc suf h1 h2 _), bind_ok (readVarstr31_enc _ h3 _)]
     rfl
@@ -168,7 +180,7 @@ theorem decOC_enc (oc : OutputCommitment) (h : WFOC oc) (r : Bytes) :
     (decOC (encOC oc ++ r)).out = .ok oc r := by
   unfold decOC encOC
   simp only [List.append_assoc]
-  rw [bind_ok (readHash_app _ _ h.asset), bind_ok (tick_out _ _),
+  rw [bind_ok (by rw [charge_out]; exact readHash_app _ _ h.asset),
     bind_ok (readVarint63_put _ h.amount _), bind_ok (readVarint63_put _ (by rw [h.vm]; decide) _)]
   rw [if_neg (by simp [h.vm])]
   rw [bind_ok (readVarstr31_enc _ h.prog _), bind_ok (readVarstrList_enc _ h.state _)]
@@ -223,9 +235,8 @@ theorem decOutput_enc (o : TxOutput) (h : WFOutput o) (r : Bytes) :
   obtain ⟨hav, ht, hl, hc⟩ := h
   unfold decOutput encOutput
   simp only [List.append_assoc, List.singleton_append, List.cons_append, List.nil_append]
-  rw [bind_ok (readVarint63_put _ hav _), bind_ok (readByte_cons _ _)]
   have htag : ¬ (o.typed.tag ≠ 0 ∧ o.typed.tag ≠ 1) := by cases o.typed <;> simp [TypedOutput.tag]
-  rw [if_neg htag, bind_ok (tick_out _ _)]
+  rw [bind_ok (readVarint63_put _ hav _), bind_ok (readOutType_cons _ _ htag)]
   rw [bind_ok (readExt_enc _ _ o.commitmentSuffix (o.typed, o.commitment) _
     (decOutBody_enc o.assetVersion o.commitment o.commitmentSuffix o.typed _ ht hc) hl)]
   simp only
